@@ -102,7 +102,10 @@ def gen_items(rng, ik):
         return [{'t': 'list', 'v': [{'t': 'list', 'v': [rng.randint(0, 9) for _ in range(rng.randint(0, 2))]}
                                     for _ in range(rng.randint(0, 2))]} for _ in range(n)]
     if ik == 'intlist':
-        return [{'t': 'list', 'v': [rng.randint(0, 9) for _ in range(rng.randint(0, 3))]} for _ in range(n)]
+        # (now and then fractions: an int start value does not make the sum an int)
+        fr = rng.random() < 0.3
+        return [{'t': 'list', 'v': [(rng.choice([0.5, 1.25, 2.75]) if fr and rng.random() < 0.5 else rng.randint(0, 9))
+                                    for _ in range(rng.randint(0, 3))]} for _ in range(n)]
     if ik == 'tuple2':
         return [{'t': 'list', 'v': [{'t': 'tuple', 'v': [rng.randint(0, 9) for _ in range(rng.randint(0, 2))]}
                                     for _ in range(rng.randint(0, 2))]} for _ in range(n)]
